@@ -41,7 +41,7 @@ def idx_local(drv):
 def state_switch(ctx, drv):
     """block that switches on the discriminant of the State returned by Interpreter::parse: {variant name: target}"""
     P = ctx.program
-    sadt = P.adts.get("util::interpreter_util::State")
+    sadt = P.find_adt("util::interpreter_util::State")
     names = {i: v["name"] for i, v in enumerate(sadt["variants"])}
     for bi, bb in enumerate(drv["blocks"]):
         t = M.term(bb)
@@ -230,7 +230,7 @@ class LoopModel:
             self.why = "the `current` argument is not a loop variable"
             return
         self.idx = self.cur[1]
-        sadt = P.adts.get("util::interpreter_util::State")
+        sadt = P.find_adt("util::interpreter_util::State")
         self.state = ("proj", ("proj", C, ("down", 0)), ("f", 0))
         self.arms = {}
         for vi, v in enumerate(sadt["variants"]):
